@@ -18,6 +18,10 @@ CLAIMS = {
    technique="abstract evaluation of cpu_update on every thread list of length 0..3 in every state (physical and virtual CPU); event-trace pairing analysis (state/CPU change followed by a recount of each affected CPU) over the accepting paths of the life-cycle and affinity handlers",
    text="cpu_update's CFG is evaluated on all 518 configurations (0-3 threads x 6 states x physical/virtual): it must reject exactly when a physical CPU has more than one running thread and otherwise feed NRUN/TID/PID/THRUN/THACT from the unique running / active thread or null; cpu_add/remove/migrate_thread must change the list and then recount; on every accepting path of the six life-cycle handlers and both affinity handlers every CPU whose occupants changed is recounted after the change. Not decided: lists longer than three and arbitrary interleavings over many CPUs (list manipulation is data-dependent).",
    design_ref="§4 C05"),
+ "C06": dict(
+   technique="constant-table totality check of tracking modes; abstract evaluation of mode->selector wiring, selector state sets, CPU mux wiring (argument flow), cb_select/cb_input protocol and bay_propagate phase order over their finite case spaces",
+   text="Decides the structural clauses view consistency rests on: all 8 models' thread/CPU tracking tables are total and CPU entries are TRACK_TH_RUN; track_th_input_chan wires ANY/RUN/ACT to direct / thread_select_running / thread_select_active, whose accepted state sets are evaluated for all states and must equal the sets of C04/C05; connect_cpu (and the mark twin) must select on the CPU's running-thread channel with nthreads inputs and connect input gindex to that thread's channel i; default_select is bounds-checked; cb_select is evaluated on (old selection x new selection) and must disable-then-enable and output the new input's value or the default; bay_propagate must run dirty, emit, flush in order and clear the dirty list. NOT decided (the core of C06): that the value shown is right at every instant under all interleavings - that is an outcome of the dynamic dirty-list propagation order.",
+   design_ref="§4 C06"),
  "C07": dict(
    technique="typestate extraction: abstract path exploration of body.c over all consistent (state, flags, stack, stack-top) combinations vs. the documented body FSM; who-may-write effect analysis; argument-flow evaluation of flag plumbing, event mapping and channel sets in both task models",
    text="body_execute/pause/resume/end are explored (utlist macros included) on every consistent abstract state - 4 body states x PAUSE/RESURRECT flags x {no stack, this stack, another stack} x {empty, self alone, self over another, other running relaxed/strict, other paused} - and accept/reject plus the post-state (state, stack binding, new top, iteration) must equal the documented machine; struct body is written only by body.c's five life-cycle functions; create_body's flag mapping is evaluated on all 16 task-flag sets; nOS-V/Nanos6 creation flags, the nOS-V body-id rule, the x/e/p/r -> task_* -> body_* mapping and the running/stopped/switch channel sets and their source fields are evaluated from the code. Not decided: hash-table lookups (task_find/body_find) and list shapes deeper than two bodies.",
